@@ -29,7 +29,7 @@ LIB = [
     "inc = (x) -> x + 1",
     "recg = (n) -> {\nif n <= 0 return 0\nyield n\nfor e <- recg(n - 1) yield e * 10\n}",
     "twice = (it) -> for e <- it() {\nyield e\nyield e + 100\n}",
-    "echo = (it) -> for e <- it() {\nx = yield e\nwrite(\"[\" + toa(x) + \"]\")\n}",
+    "echo = (it) -> for e <- it() {\nwrite(\"[\" + toa(e) + \"]\")\nyield e\n}",
 ]
 
 
@@ -106,7 +106,7 @@ def run(tier, seed):
             if kind == "panic" and nf < 3:
                 nf += 1
                 run.violation({"what": "the interpreter aborted in a generator program (statement %d): %s" % (at, text),
-                               "session": sess[i][:at + 1]})
+                               "session": sess[i] if res[i].get("crash") else sess[i][:at + 1]})
     run.cov.update({
         "explanation": "Generator-heavy sessions run on the real code and compared inside Coq with the definitional semantics "
                        "(values, loop variables after the loop, interleaved write output of generator and body, error class) and "
